@@ -5,8 +5,10 @@ driving client-go's rate limiting + delaying queue.  Core-only.
 Time is `Int` nanoseconds.  `last = none` is Go's zero `time.Time` (far in the past).
 The delaying queue is modelled as: per item the earliest pending deadline (client-go keeps the
 earlier `readyAt` of a waiting item), `AddAfter d ≤ 0` runs at once, a pending item runs at its
-deadline; the run itself is instantaneous (scheduling latency and run duration are outside the
-model — named in the evidence).
+deadline.  First part (`St`, `simulate`): the run itself is instantaneous.  Second part (`StD`,
+`simulateD`, end of the file): a run occupies the single worker for a duration, after which
+`WorkQueue.process` calls the limiter's `Forget` and `Done`; `simulate` is the case "all durations 0"
+(`Props.C13.simulateD_zero`).  Scheduling latency is outside the model (named in the evidence).
 -/
 namespace HapVerif.C13
 
@@ -187,13 +189,15 @@ def catchUpD (fg : Forget) (lim : Option Int) (who : Option Bool) : Nat → StD 
 def catchUp (fg : Forget) (lim : Option Int) (who : Option Bool) (s : StD) : StD :=
   catchUpD fg lim who (s.queue.length + 2) s
 
+/-- deadline of `b` if it is due at `t` -/
+def dueOf (q : St) (t : Int) (b : Bool) : List Int :=
+  match q.pend b with
+  | some d => if d ≤ t then [d] else []
+  | none => []
+
 /-- entries of the delaying queue that are ready at `t`, in the order `waitingLoop` pops them -/
 def due (q : St) (root : Bool) (t : Int) : List (Int × Bool) :=
-  let one (b : Bool) : List (Int × Bool) :=
-    match q.pend b with
-    | some d => if d ≤ t then [(d, b)] else []
-    | none => []
-  one root ++ one (!root)
+  (dueOf q t root).map (·, root) ++ (dueOf q t (!root)).map (·, !root)
 
 /-- both items are due at the same instant -/
 def sameInstant : List (Int × Bool) → Bool
@@ -220,15 +224,17 @@ def rootAfter (root : Bool) (qf q' : St) (b : Bool) (inserted : Bool) : Bool :=
     if (qf.pend b).isSome && rf == b then b else if nb < y then b else !b
   | some _, none => rf
 
-/-- `AddRateLimited(b)` at time `t`, after everything that happens up to `t` -/
-def arriveD (lim : Limiter) (fg : Forget) (s : StD) (t : Int) (b : Bool) : StD :=
-  let s := serveDue fg s t
-  let s := catchUp fg (some t) none s
+/-- `AddRateLimited(b)` at time `t`, the worker being up to date -/
+def arriveW (lim : Limiter) (fg : Forget) (s : StD) (t : Int) (b : Bool) : StD :=
   let r := lim s.q.last t
   let qf := fire s.q t
   let q' := arrive lim s.q t b
   let s := { s with q := q', root := rootAfter s.root qf q' b (!(r.2 ≤ 0)) }
   if r.2 ≤ 0 then drain fg t (addD s b) else s
+
+/-- `AddRateLimited(b)` at time `t`, after everything that happens up to `t` -/
+def arriveD (lim : Limiter) (fg : Forget) (s : StD) (t : Int) (b : Bool) : StD :=
+  arriveW lim fg (catchUp fg (some t) none (serveDue fg s t)) t b
 
 def runAllD (lim : Limiter) (fg : Forget) (durs : List Int) (evs : List (Int × Bool)) : StD :=
   evs.foldl (fun s e => arriveD lim fg s e.1 e.2) { durs := durs }
